@@ -21,6 +21,12 @@ macro_rules! dispatch {
             "C05" => $f::<props::c05::C05>($($arg),*),
             "C06" => $f::<props::c06::C06>($($arg),*),
             "C07" => $f::<props::c07::C07>($($arg),*),
+            "C08" => $f::<props::c08::C08>($($arg),*),
+            "C09" => $f::<props::c09::C09>($($arg),*),
+            "C10" => $f::<props::c10::C10>($($arg),*),
+            "C11" => $f::<props::c11::C11>($($arg),*),
+            "C12" => $f::<props::c12::C12>($($arg),*),
+            "C13" => $f::<props::c13::C13>($($arg),*),
             "C14" => $f::<props::c14::C14>($($arg),*),
             "C15" => $f::<props::c15::C15>($($arg),*),
             "C17" => $f::<props::c17::C17>($($arg),*),
